@@ -444,3 +444,29 @@ def vpr_buckets_sorted(d):
             if any(int(x[:2], 16) % 71 != b["i"] for x in ids):
                 bad.append((which, b["i"], "wrong bucket index"))
     return bad
+
+
+def parse_bad_list(out, name, item_re):
+    """Parse `<name> = [ ... ] : list ...` printed by coqc.  Returns the list of regex matches of the
+    items.  Raises RuntimeError when the output cannot be parsed, or when the list text is not empty
+    but no item could be parsed (a regex that silently matches nothing would make the
+    correspondence pass vacuously)."""
+    import re
+    flat = " ".join(out.split())
+    m = re.search(name + r" = (.*?) : list", flat)
+    if not m:
+        raise RuntimeError("cannot parse model evaluation output (no `%s = ... : list`):\n%s" % (name, out[-1500:]))
+    body = m.group(1).strip()
+    if body in ("[]", "nil"):
+        return []
+    items = re.findall(item_re, body)
+    if not items:
+        raise RuntimeError("model evaluation printed a non-empty list that could not be parsed: %s" % body[:500])
+    return items
+
+
+def perturb(kind):
+    """VERIF_PERTURB=<kind> makes the check falsify one observation on purpose (self-test of
+    the correspondence: the run must then end with a correspondence VIOLATION)"""
+    import os
+    return os.environ.get("VERIF_PERTURB") == kind
